@@ -2261,7 +2261,29 @@ StylesheetExecutionContextDefault::shouldStripSourceNode(const XalanText&   node
     assert(m_stylesheetRoot != 0);
 //    assert(node.getData().length() != 0);
 
-    return m_stylesheetRoot->shouldStripSourceNode(node);
+    if (m_stylesheetRoot->shouldStripSourceNode(node) == false)
+    {
+        return false;
+    }
+    else
+    {
+        // XSLT 1.0, section 3.4: whitespace is stripped from source documents
+        // (and stylesheets).  The nodes of result tree fragments, which live
+        // in m_sourceTreeResultTreeFactory (or, with the per-instance document
+        // factory, in a document of m_documentAllocator), are not subject to it.
+        const XalanDocument* const  theOwner = node.getOwnerDocument();
+
+        if (theOwner != 0 &&
+            (theOwner == m_sourceTreeResultTreeFactory.get() ||
+             (m_usePerInstanceDocumentFactory == true &&
+              m_documentAllocator.ownsObject(
+                    static_cast<const XalanSourceTreeDocument*>(theOwner)) == true)))
+        {
+            return false;
+        }
+
+        return true;
+    }
 }
 
 
